@@ -1,6 +1,7 @@
 import Evenio.Proofs.EvLedger
 /-! # The event ledger along whole WORLD histories, part 2: registration, removal, the top-level operations -/
 namespace Evenio
+namespace EvLedger
 
 variable {Z : List Nat}
 
@@ -140,4 +141,5 @@ theorem execOp_led (op : Op) : KP (Led Z) (execOp op) := by
     refine Hoare.bind (sendTargeted_led (Y := [s]) _ _ _ rfl) fun _ => Hoare.pure fun _ h => h
   | _ => kpl
 
+end EvLedger
 end Evenio
